@@ -1,6 +1,7 @@
 import RactorModel.Lemmas.FactoryRouters
 import RactorModel.Lemmas.FactoryAffinity
 import RactorModel.Lemmas.FactoryQueuer
+import RactorModel.Lemmas.FactorySlotInst
 
 /-!
 # C14 — Factory routing keeps its promises about where a job runs
@@ -109,6 +110,35 @@ theorem kp_routes_to_holder (w : W) (j : Job) (hint : Option Nat) (p0 : WP) (hr 
     (w.chooseTargetWorker j hint).1 = some p0.wid := by
   unfold W.chooseTargetWorker
   simp only [hr, hf]
+
+/-- (one at a time, the factory's side) for every router and EVERY sequence of operations —
+stale completions included — every slot has at most one job in flight (`curr_jobs`): the factory
+hands a worker its next job only when the previous one is no longer booked as in flight. -/
+theorem one_job_in_flight_per_slot (c : CaseCfg) (steps : List Step) :
+    ∀ p ∈ ((init c).runSteps steps).pool, p.curr.length ≤ 1 :=
+  fun p hp => (slot_always slotOk_inv c steps p hp).one
+
+/-- `pending_key_counts` is exact: for every slot and key it counts the jobs of that key queued
+for the slot plus the one in flight — after every sequence of operations (expiry, shedding,
+completion, replacement included). -/
+theorem pending_tracks_jobs (c : CaseCfg) (steps : List Step) :
+    ∀ p ∈ ((init c).runSteps steps).pool, ∀ k,
+      p.pending.count k = (keysCurr p).count k + (keysMq p).count k :=
+  fun p hp => (slot_always slotOk_inv c steps p hp).tracks
+
+/-- (affinity in terms of jobs) with key-persistent routing, jobs of one key — queued for a slot
+or booked as in flight on it — are never spread over two slots. -/
+theorem affinity_jobs_partial (c : CaseCfg) (hr : c.cfg.router = .kp) (steps : List Step) (k : Nat) (p1 p2 : WP)
+    (h1 : p1 ∈ ((init c).runSteps steps).pool) (h2 : p2 ∈ ((init c).runSteps steps).pool)
+    (hk1 : k ∈ keysCurr p1 ++ keysMq p1) (hk2 : k ∈ keysCurr p2 ++ keysMq p2) : p1 = p2 := by
+  have t1 := pending_tracks_jobs c steps p1 h1 k
+  have t2 := pending_tracks_jobs c steps p2 h2 k
+  have c1 : 0 < (keysCurr p1 ++ keysMq p1).count k := List.count_pos_iff.mpr hk1
+  have c2 : 0 < (keysCurr p2 ++ keysMq p2).count k := List.count_pos_iff.mpr hk2
+  rw [List.count_append] at c1 c2
+  apply affinity_unique_slot c hr steps k p1 p2 h1 h2
+  · rw [hasPending_iff]; exact List.count_pos_iff.mp (by omega)
+  · rw [hasPending_iff]; exact List.count_pos_iff.mp (by omega)
 
 /-! ## Queuer routing never idles a worker while a job waits -/
 
@@ -227,6 +257,9 @@ end C14
 #print axioms C14.affinity_partial
 #print axioms C14.affinity_unique_slot
 #print axioms C14.kp_routes_to_holder
+#print axioms C14.one_job_in_flight_per_slot
+#print axioms C14.pending_tracks_jobs
+#print axioms C14.affinity_jobs_partial
 #print axioms C14.queuer_never_idles
 #print axioms C14.queuer_deque_sound
 #print axioms C14.busy_worker_starts_nothing
